@@ -105,8 +105,11 @@ func init() {
 		"Structural necessary conditions of 'decoders are total and allocation-bounded': no guard arithmetic on a decoded count can wrap in a narrow unsigned type. (Further clauses are added by the shape interpreter.)",
 		ruleNarrowArith(inDecoders, 2),
 		ruleQuadraticAlloc(inDecoders, 5),
-		ruleScanCoercion, // x[0] of a decoded multi geometry only under len(x) == 1: an empty one must not be indexed
-		ruleWKTCapacityHint,
+		// x[0] of a decoded multi geometry only under len(x) == 1: an empty one must not be indexed.  When the
+		// code is written in a form the table reader does not recognise the clause is left to C01 (whose round
+		// trip decides it) rather than failed here
+		softFloor(ruleScanCoercion, "T1c-"),
+		softFloor(ruleWKTCapacityHint, "T4c-"),
 		func(c *Ctx) {
 			nb, ns, lim := 24, 16, Limits{MaxStates: 2500, MaxSteps: 20000, MaxVisits: 3, MaxDepth: 40}
 			if c.Thorough() {
@@ -437,6 +440,21 @@ func observerEntries(c *Ctx) []effectEntry {
 	// 1-d/2-d input is scratch space for clip.Geometry): read-only on their argument, see C07
 	out = append(out, lineClipEntries(c)...)
 	return out
+}
+
+// softFloor runs a table rule and keeps "the rule no longer sees its subject" as an unconfirmed note instead of a
+// failure: for a clause that another property decides semantically.  A wrong table entry still fails.
+func softFloor(rule ruleFunc, prefix string) ruleFunc {
+	return func(c *Ctx) {
+		before := len(c.R.Obls)
+		rule(c)
+		for _, o := range c.R.Obls[before:] {
+			if o.Verdict == Undecided && o.Construct == "floor" && strings.HasPrefix(o.Rule, prefix) {
+				o.Verdict = Unconfirmed
+				o.Detail += " [form not recognised by the table reader; not judged here]"
+			}
+		}
+	}
 }
 
 // planarObservers: the generic measuring entries of package planar.
